@@ -62,5 +62,7 @@ Log == ndJsonDeserialize(IOEnv.TRACE)
 VARIABLE l
 CheckSpec == l = 1 /\ [][l <= Len(Log) /\ l' = l + 1]_l
 Checked == l <= Len(Log) => ValidOrError(Log[l])
+\* the same judgement, but every rejected record is reported and the pass goes on (one TLC run per batch however many fail)
+CheckedAll == l <= Len(Log) => (ValidOrError(Log[l]) \/ PrintT("BAD " \o ToString(l)))
 Done == PrintT(<<"CHECKED", TLCGet("stats").diameter, Len(Log)>>)
 =============================================================================
